@@ -28,6 +28,9 @@ A_DELTAS = (math.pi / 8, math.pi / 4, math.pi / 2, math.pi, 0.5, 1.0, 3.0,
 TOLS = (0.0, 0.1, 0.5)
 
 
+_BUFS = {}
+
+
 def poses_from_steps(steps):
     ps = [np.zeros(3)]
     for k, s in enumerate(steps):
@@ -199,6 +202,12 @@ def run_case(case):
     else:
         poses = poses_from_rots(case["rots"])
     n = len(poses)
+    if case.get("reuse_list", True):
+        # hand over the same list object again and again (refilled in place):
+        # results must depend on the poses, not on the identity of the list
+        buf = _BUFS.setdefault(n, [])
+        buf[:] = poses
+        poses = buf
     snap = [p.tobytes() for p in poses]
     pairs, exc = call(poses, delta, unit, rel_tol, allp)
     msgs = []
